@@ -14,6 +14,7 @@ def check(tier):
         "distinct_nontrivial = subscriptions() results with >=3 entries, each checked as a multiset and for the three ordering clauses",
         "subscription_results_ge3",
         "registry-layer correspondence (ZI.Registry.subscribe/unsubscribe/subscriptions vs adapter.py)",
+        reentry_eps=["subscriptions"],
         extra_stream=worldcommon.twin_stream("C07", WORLD_PROFILE, dict(quick=30, thorough=600), ("subs", "subscribers")))
 
 
